@@ -44,6 +44,8 @@ PalOf(dp) == IF dp = 88 THEN 88 ELSE 256
 \* which sentence a wrong stored colour breaks
 ColourClause(dp, x, c) ==
   IF dp = TRUEC /\ x.k # "rgb6" /\ c.k = "true" /\ ~InPalette256(<<c.r, c.g, c.b>>) THEN "rgb_matches_xterm"
+  ELSE IF x.k = "rgb6" /\ dp # TRUEC
+       THEN (IF \A v \in {x.a, x.b, x.c} : IsCubeStep(PalOf(dp), v) THEN "exact_preserved" ELSE "nearest_cube")
   ELSE IF IsExact(PalOf(dp), x) THEN "exact_preserved"
   ELSE IF x.k = "rgb3" THEN "nearest_cube"
   ELSE "nearest_gray"
